@@ -251,6 +251,13 @@ def perform(M, rt, call, truth):
         del rt.RET[:]
         del rt.YS[:]
         return
+    elif f == "g0_abandon_then":
+        # ... and the very next thing the program does is call the same generator function with another argument and run
+        # it to the end (no harness frame in between: the new frame may sit where the abandoned one sat)
+        f = "g0"
+        b0 = args[1] if len(args) > 1 else None
+        out = rt.abandon_then(M.g0, a0, b0)
+        note("a", b0)
     elif f == "fm":
         b = args[1] if len(args) > 1 else None
         note("a", a0), note("b", b)            # as they were when the call started
@@ -359,6 +366,13 @@ def run_sound_case(case):
             with monkeytype.trace(w["C"].CONFIG):
                 for call in case["calls"]:
                     perform(M, rt, call, truth)
+        if case.get("backdate"):
+            # the program was run on two days: every other stored row is a day older (rows of one function are then not adjacent
+            # in what the store returns)
+            c9 = sqlite3.connect(db)
+            c9.execute("UPDATE monkeytype_call_traces SET created_at = datetime(created_at, '-1 days') WHERE rowid % 2 = 1")
+            c9.commit()
+            c9.close()
         out, err = io.StringIO(), io.StringIO()
         glob = ["--disable-type-rewriting"] if case["flag"] == "--disable-type-rewriting" else []
         if case["flag"].startswith("--limit"):
@@ -682,6 +696,10 @@ def gen_sound(tier, seed, env_text, pid=None):
         onecol.append([mk2("f0", A("int"), s1), mk2("f0", A("int"), s2)])
         onecol.append([{"f": "f1", "args": [A("int")], "ret": s1, "ys": []}, {"f": "f1", "args": [A("int")], "ret": s2, "ys": []}])
     add("two calls of one function that differ in one stored column only, by records with different key sets", onecol, [0, 3], ["NONE"], [""])
+    add("a generator abandoned after its first value, the same function called again at once with an argument of another type",
+        [[{"f": "g0_abandon_then", "args": [x, y], "ret": A("NoneType"), "ys": [A("int")]}] + extra
+         for x, y in ((A("int"), Sx("s")), (Sx("s"), A("int")), (C("list", A("int")), A("float")), (A("float"), dk("k")))
+         for extra in ([], [mk2("f0", A("int"), A("int"))])], [0], ["NONE"], [""])
     n0 = len(cases)
     # (C06 only: a trace that begins in the middle of a call says nothing about the values seen before - soundness and
     # tightness have no verdict for it - but the limit in force binds it all the same)
@@ -722,6 +740,8 @@ def gen_sound(tier, seed, env_text, pid=None):
         c["tid"] = i + 1
         if i % 6 == 1 and not c["flag"]:
             c["late_config"] = True      # the stub command reads its settings from a config that is only final inside cli_context
+        if i % 4 == 2 and len(c["calls"]) > 1:
+            c["backdate"] = True
     return cases, plan
 
 
